@@ -46,7 +46,7 @@ def cases(draw):
     rational = draw(st.integers(0, 3)) == 0
     variant = draw(st.sampled_from(
         ["same", "same", "perturbed", "perturbed", "interval", "weights-const", "weights-scaled",
-         "weight-changed", "noncurve"]))
+         "weight-changed", "noncurve", "independent", "independent"]))
     heavy = rational or variant.startswith("weight")
     # rational comparison multiplies numerators and denominators exactly: keep those cases small
     if heavy:
@@ -54,8 +54,21 @@ def cases(draw):
     else:
         c = draw(gen.curves(0, 3, 3, rational=rational, nums=("frac",)))
     n = len(c["P"])
+    other = None
+    if variant == "independent":
+        # an unrelated curve on the same interval: other degree, knots from the same grid (shared knots with
+        # other multiplicities, corners where A is smooth); scalar/vector like A
+        bk = gen.breaks_of(c["U"])
+        scalar = not isinstance(c["P"][0], (list, tuple))
+        other = draw(gen.curves(0, 3, 3, rational=False, nums=("frac",), interval=(bk[0], bk[-1]), grid=12,
+                                dim=0 if scalar else len(c["P"][0])))
+        if len(bk) > 2 and draw(st.booleans()):
+            z = draw(st.sampled_from(bk[1:-1]))
+            if z not in other["U"]:
+                other["U"] = sorted(other["U"] + [z])
+                other["P"] = other["P"] + [other["P"][-1]]
     return {
-        "A": c, "variant": variant,
+        "A": c, "variant": variant, "other": other,
         "refB": draw(refinement(c["U"], c["p"], 2, 1) if heavy else refinement(c["U"], c["p"])),
         "refA": draw(st.one_of(st.none(), st.none(), st.none() if heavy else refinement(c["U"], c["p"], 2, 1))),
         "index": draw(st.integers(0, n - 1)),
@@ -105,6 +118,8 @@ def check(case, out):
         return
     # ---- build B's base function
     b0 = a0.copy()
+    if variant == "independent":
+        b0 = lib.case_state(case["other"])
     if variant == "perturbed":
         i = case["index"]
         pt = list(b0.P[i])
@@ -129,7 +144,7 @@ def check(case, out):
     U2, p2 = case["refB"]
     if variant == "interval":
         U2 = [u + 1 for u in U2]
-    b = oracle.refine_state(b0, U2, p2)
+    b = b0 if variant == "independent" else oracle.refine_state(b0, U2, p2)
     kindB = "rational" if b.w is not None else "polynomial"
     out.cls("B=" + kindB)
     # ---- expected answer, decided by the reference
